@@ -866,6 +866,20 @@ def _check(prop, tier, seed, rundir, t_start):
         fuzz_stage(prop, FUZZ_THOROUGH[prop], seed, rundir, hard, inconclusive, extra_cov, stages)
     if prop == "C19":
         c19_extra(tier, seed, rundir, merged, hard, inconclusive, extra_cov, stages)
+    if tier == "thorough" or os.environ.get("VERIF_COV"):
+        # reach audit (cov.py): which lines / branch sides of /repo/src this property's workload
+        # executed. An observation for the evidence file; it can never change the verdict.
+        try:
+            import cov
+            cov.vp.ENV_BASE.update(ENV_BASE)
+            r = cov.audit(prop, seed)
+            r.pop("_raw", None)
+            for f in r.get("files", {}).values():
+                f["lines_not_executed"] = f["lines_not_executed"][:12]
+                f["lines_with_a_branch_side_not_taken"] = f["lines_with_a_branch_side_not_taken"][:12]
+            extra_cov["source_coverage"] = r
+        except Exception as e:  # tool missing or failing: nothing observed, nothing claimed
+            extra_cov["source_coverage"] = {"unavailable": str(e)[:300]}
 
     # ------------------------------------------------------------------ verdict
     classes = {}
